@@ -4,7 +4,8 @@ use crate::labels::{self, h, quote_candid};
 use candid::types::internal::{Field, Label, Type, TypeInner};
 use candid::types::value::{IDLField, IDLValue};
 use candid::types::TypeEnv;
-use candid::IDLArgs;
+use candid::types::CandidType;
+use candid::{Decode, IDLArgs};
 use mclib::bridge;
 use mclib::engine::{catch, Report};
 use refmodel::ty::{Ty, P};
@@ -689,7 +690,7 @@ pub fn check_header(kind: &str, mode: &str, ids: &[u64], rep: &mut Report, lim: 
     let obs: Vec<(&str, Result<Result<(), String>, String>)> = vec![
         ("IDLArgs::from_bytes", catch(|| IDLArgs::from_bytes(&bytes).map(|_| ()).map_err(|e| format!("{e}")))),
         ("IDLArgs::from_bytes_with_types(reserved)", catch(|| IDLArgs::from_bytes_with_types(&bytes, &env, std::slice::from_ref(&reserved)).map(|_| ()).map_err(|e| format!("{e}")))),
-        ("Decode!(Reserved)", catch(|| candid::Decode!(&bytes, candid::Reserved).map(|_| ()).map_err(|e| format!("{e}")))),
+        ("Decode!(Reserved)", catch(|| Decode!(&bytes, candid::Reserved).map(|_| ()).map_err(|e| format!("{e}")))),
         ("IDLDeserialize::new", catch(|| candid::de::IDLDeserialize::new(&bytes).map(|_| ()).map_err(|e| format!("{e}")))),
     ];
     for (ep, r) in obs {
